@@ -96,6 +96,32 @@ def reduce_of(facts, body, tree, level=0):
             return None
     if t[0] == 'var' and len(t) > 2:
         return reduce_of_var(facts, body, t[2])
+    if t[0] == 'field' and isinstance(t[2], int):
+        # component of a fold over a tuple accumulator: it.fold((i0, i1, ..), |(a0, a1, ..), x| (a0 + e0, a1 + e1, ..)).k
+        f = peel(t[1])
+        if isinstance(f, tuple) and f and f[0] == 'call' and last_seg(f[1]) == 'fold' and len(f[2]) == 3:
+            init = peel(f[2][1])
+            if init[0] == 'agg' and init[1] == 'tuple' and t[2] < len(init[3]):
+                k = t[2]
+                segs = seq_of_iter(facts, body, f[2][0], level)
+                if segs is None:
+                    return None
+                out, op = [], None
+                for s in segs:
+                    s = s.copy()
+                    for leaf in s.flat():
+                        if leaf.elem is None:
+                            return None
+                        r = peel(apply_fn(facts, f[2][2], (ACC, leaf.elem)))
+                        if not (r[0] == 'agg' and r[1] == 'tuple' and k < len(r[3])):
+                            return None
+                        c = _combine(r[3][k], lambda u, k=k: core(u) == ('field', ACC, k))
+                        if c is None or (op is not None and op != c[0]):
+                            return None
+                        op = c[0]
+                        leaf.elem = nosite(c[1])
+                    out.append(s)
+                return Red(op, nosite(init[3][k]), out, body) if op else None
     return None
 
 
